@@ -1,0 +1,22 @@
+//go:build verif
+// +build verif
+
+package log
+
+import "strings"
+
+// VerifSetHostUser makes the package believe it runs on the machine / under
+// the user with the given names, for the C16 verification harness: it gives
+// the package variables host and userName the values the package's init()
+// computes from os.Hostname() and user.Current() (the host name cut at the
+// first period, backslashes of the user name replaced), and returns a
+// function that puts the previous values back. Nothing else is changed.
+func VerifSetHostUser(hostname, username string) (restore func()) {
+	oldHost, oldUser := host, userName
+	host = shortHostname(hostname)
+	userName = strings.Replace(username, `\`, "_", -1)
+	return func() { host, userName = oldHost, oldUser }
+}
+
+// VerifHostUser returns the current values.
+func VerifHostUser() (string, string) { return host, userName }
